@@ -190,6 +190,23 @@ def Domain.lIRange (d : Domain F) (inv : F → F) (pw : F → Nat → F) (x xn :
   let common := (xn - 1) * d.barycentricWeight
   List.zipWith (fun r res => d.rotateOmega pw (res * common) r) rots results
 
+
+/-- `arithmetic.rs: pub fn compute_inner_product(a, b)` (`none` = `assert_eq!(a.len(), b.len())`). -/
+def computeInnerProduct (a b : List F) : Option F :=
+  if a.length ≠ b.length then none
+  else some ((a.zip b).foldl (fun acc ab => acc + ab.1 * ab.2) 0)
+
+/-- `domain.rs: constant_lagrange(scalar)` (`empty_lagrange` / `empty_coeff` are `scalar = 0`). -/
+def Domain.constantLagrange (d : Domain F) (scalar : F) : List F := List.replicate d.n scalar
+
+/-- `domain.rs: constant_extended(scalar)` (`empty_extended` is `scalar = 0`). -/
+def Domain.constantExtended (d : Domain F) (scalar : F) : List F :=
+  List.replicate (2 ^ d.extendedK) scalar
+
+/-- `domain.rs: lagrange_from_vec` / `coeff_from_vec` (`none` = the length assertion fails). -/
+def Domain.fromVec (d : Domain F) (values : List F) : Option (List F) :=
+  if values.length ≠ d.n then none else some values
+
 /-- `g_to_lagrange(g, k)` on discrete logarithms. -/
 def gToLagrange (fc : FieldConsts F) (t : Nat) (twoInv rootInv : F) (pw : F → Nat → F) (g : List F) (k : Nat) :
     Option (List F) :=
